@@ -76,6 +76,17 @@ const NS_POOL: &[&str] = &[
     "http://other.example/",
     "http://ex/ns/../",
     "http://ex//",
+    // look-alikes of configured namespaces that do NOT have them as a prefix: a loader that
+    // matches namespaces loosely (scheme-insensitively, case-insensitively, ignoring a port or
+    // userinfo) serves files for IRIs outside every configured namespace
+    "https://ex/ns/",
+    "https://ex/",
+    "HTTP://ex/ns/",
+    "http://EX/ns/",
+    "http://ex:80/ns/",
+    "http://u@ex/ns/",
+    "http://ex/NS/",
+    "ttp://ex/ns/",
 ];
 
 /// path segments for the free-form generator; `{T}` expands to the absolute path of
